@@ -193,7 +193,7 @@ func streams(t *simkit.Tape, o *simkit.Outcome, g guard) {
 			if !ok {
 				return
 			}
-			if mode == 1 && err == nil {
+			if mode == 1 && err == nil && !errors.Is(rd.err, io.EOF) { // an error wrapping io.EOF is an odd way to say "end of input"
 				o.Violate(P, "error-swallowed", "error-swallowed:first-read", "Read%s returned a tree although the very first read failed", rk)
 			}
 			// whatever tree came back must be queryable without crashing
